@@ -4,6 +4,7 @@
 # usage: tools/seed_matrix.sh [<id>...]        (default: every directory under seeded/)
 cd "$(dirname "$0")/.."
 R=${VERIF_REPO:-/repo}
+export VERIF_EVIDENCE_DIR=${VERIF_EVIDENCE_DIR:-$PWD/.work/evidence-experiments}
 ids=("$@"); [ ${#ids[@]} -eq 0 ] && ids=($(ls seeded | grep -E '^C[0-9]+-[0-9]+$' | sort -V))
 for id in "${ids[@]}"; do
   prop=${id%%-*}
